@@ -44,6 +44,7 @@ Definition show_res (r : res) : string :=
   | RExc EKeyError => "exc:KeyError"
   | RExc EAttributeError => "exc:AttributeError"
   | RExc EUnsupported => "unsupported"
+  | RExc EIndexSize => "exc:IndexSizeError"
   end.
 Definition show_pyv (v : pyv) : string :=
   match v with PNone => "N" | PTrue => "T" | PFalse => "F" | PStr x => "S" +++ hex x end.
